@@ -5,6 +5,8 @@ use crate::common::poisson_disk::sample_poisson_disk;
 use crate::common::SurfacePointCollection;
 use crate::{Point3, SurfacePoint3};
 use rand::prelude::SliceRandom;
+#[cfg(feature = "verif")]
+use crate::verif::rand_shim as rand;
 use std::f64::consts::PI;
 
 impl Mesh {
